@@ -132,6 +132,11 @@ MUTATIONS=(
 "make-UNSUPPORTED-self-access-while-borrowed|FAIL|$BOARD|/pub fn make(&mut self, mv: Move)/,/pub fn unmake(&mut self, mv: Move)/s/let source_square_shift = mv.get_source_square();/let source_square_shift = mv.get_source_square(); let w = \&self.white;/"
 "make-HARMLESS-rename-local|PASS|$BOARD|s/source_square_mask/src_mask/g"
 "make-HARMLESS-swap-stmts|PASS|$BOARD|/pub fn make(&mut self, mv: Move)/,/pub fn unmake(&mut self, mv: Move)/{/        self.en_passant_square_shift = mv.get_next_en_passant_square();/{h;d};/        self.turn = self.opposite_turn();/{G}}"
+# ---- is_move_legal = make; is_valid; unmake
+"legal-no-unmake|FAIL|$BOARD|/pub fn is_move_legal(&mut self, mv: Move) -> bool/,/^    }/s/        self.unmake(mv);//"
+"legal-valid-before-make|FAIL|$BOARD|/pub fn is_move_legal(&mut self, mv: Move) -> bool/,/^    }/{/        self.make(mv);/{h;d};/        let result = self.is_valid();/{G}}"
+"legal-negated|FAIL|$BOARD|/pub fn is_move_legal(&mut self, mv: Move) -> bool/,/^    }/s/        result$/        !result/"
+"legal-HARMLESS-rename-local|PASS|$BOARD|/pub fn is_move_legal(&mut self, mv: Move) -> bool/,/^    }/s/result/ok/g"
 )
 
 ok=0; bad=0
